@@ -59,6 +59,21 @@ Nodes(X, Y, Z) ==
   \cup {<<"cat", x, y>> : x \in X, y \in Y}
   \cup {<<"rep", x, n>> : x \in X, n \in Rng(RepSeq)}
 
+(* the slice-lowering space (Part = "lower"): verilog.py:_ComplexSliceLowerer rewrites a slice of a Cat /    *)
+(* Replicate / slice into a slice of ONE element when the slice lies inside it (its own case analysis:     *)
+(* _lower_slice_cat, _lower_slice_replicate, the slice-proxy fall-back).  Every slice (bounds up to 6, so   *)
+(* that each element boundary of two or three 1-3 bit elements is crossed by 0, 1 and 2 bits) of every     *)
+(* two- and three-level structure is enumerated; layer 1 takes them under every unsigned shape pair.       *)
+LowerLeaves   == {<<"v", 1>>, <<"v", 2>>, <<"c", 2>>}
+LowerVars     == {<<"v", 1>>, <<"v", 2>>}
+LowerSliceSeq == SliceSeq \o << <<0, 4>>, <<1, 4>>, <<2, 4>>, <<3, 4>>, <<2, 5>>, <<3, 5>>, <<3, 6>>, <<4, 6>> >>
+Struct(X, Y)  == {<<"cat", x, y>> : x \in X, y \in Y} \cup {<<"rep", x, n>> : x \in X, n \in Rng(RepSeq)}
+Lower2 == Struct(LowerLeaves, LowerLeaves) \cup {<<"s", x, r[1], r[2]>> : x \in LowerLeaves, r \in Rng(SliceSeq)}
+Lower3 == Struct(Struct(LowerVars, LowerVars), LowerVars)
+          \cup {<<"cat", x, y>> : x \in LowerVars, y \in Struct(LowerVars, LowerVars)}
+          \cup {<<"s", x, r[1], r[2]>> : x \in Struct(LowerVars, LowerVars), r \in {<<0, 2>>, <<1, 3>>, <<0, 3>>, <<1, 4>>}}
+LowerSpace == {<<"s", x, r[1], r[2]>> : x \in Lower2 \cup Lower3, r \in Rng(LowerSliceSeq)}
+
 RECURSIVE FirstVar(_), Swap(_), DepthOf(_), WellFormed(_)
 Kids(t) == CASE t[1] = "u" -> <<t[3]>>
              [] t[1] = "b" -> <<t[3], t[4]>>
@@ -91,7 +106,7 @@ WellFormed(t) ==
     [] t[1] = "u" -> t[2] \in Rng(UnSeq) /\ WellFormed(t[3])
     [] t[1] = "b" -> t[2] \in Rng(BinSeq) /\ WellFormed(t[3]) /\ WellFormed(t[4])
     [] t[1] = "m" -> WellFormed(t[2]) /\ WellFormed(t[3]) /\ WellFormed(t[4])
-    [] t[1] = "s" -> <<t[3], t[4]>> \in Rng(SliceSeq) /\ WellFormed(t[2])
+    [] t[1] = "s" -> <<t[3], t[4]>> \in Rng(IF Part = "lower" THEN LowerSliceSeq ELSE SliceSeq) /\ WellFormed(t[2])
     [] t[1] = "cat" -> WellFormed(t[2]) /\ WellFormed(t[3])
     [] t[1] = "rep" -> t[3] \in Rng(RepSeq) /\ WellFormed(t[2])
     [] OTHER -> FALSE
@@ -138,10 +153,11 @@ InitD2 == \/ \E t \in Nodes(Inner, InnerLeaves, InnerLeaves) : IsCanon(t) /\ ast
           \/ \E c \in InnerLeaves, x \in InnerLeaves, y \in Inner : IsCanon(<<"m", c, x, y>>) /\ ast = <<"m", c, x, y>>
 Init == IF Part = "d1" THEN n = 0 /\ ast \in D1 /\ PrintT(<<"AST", 0, ast>>)
         ELSE IF Part = "d2" THEN n = 0 /\ InitD2 /\ PrintT(<<"AST", 0, ast>>)
+        ELSE IF Part = "lower" THEN n = 0 /\ ast \in {t \in LowerSpace : IsCanon(t)} /\ PrintT(<<"AST", 0, ast>>)
         ELSE IF Part = "plan" THEN n = 0 /\ ast = <<"c", 0>> /\ PrintT(<<"PLAN", Plan>>)
         ELSE n \in 1..Len(Rnd) /\ ast = Sample(n) /\ PrintT(<<"AST", n, ast>>)
 Next == FALSE /\ UNCHANGED vars
 
 (* the decoder stays inside the declared space *)
-InSpace == WellFormed(ast) /\ IsCanon(ast) /\ DepthOf(ast) <= (IF Part = "d1" THEN 1 ELSE IF Part = "d2" THEN 2 ELSE Depth)
+InSpace == WellFormed(ast) /\ IsCanon(ast) /\ DepthOf(ast) <= (IF Part = "d1" THEN 1 ELSE IF Part = "d2" THEN 2 ELSE IF Part = "lower" THEN 3 ELSE Depth)
 =============================================================================
